@@ -12,6 +12,7 @@ import (
 var checks = map[string]func(*vk.Run){
 	"C14": func(r *vk.Run) { ec.Run(r, "C14") },
 	"C15": func(r *vk.Run) { ec.Run(r, "C15") },
+	"C13": ec.RunC13,
 }
 
 func main() {
